@@ -16,7 +16,8 @@ VERIF = "/verif"
 COQ = os.path.join(VERIF, "coq")
 WORK = os.path.join(VERIF, ".work")
 REPLAY = os.path.join(VERIF, "replay")
-EVID = os.path.join(VERIF, "evidence")
+# (tools/seedrun.py points this elsewhere so that runs against a deliberately broken tree never overwrite the real evidence)
+EVID = os.environ.get("VERIF_EVIDENCE_DIR") or os.path.join(VERIF, "evidence")
 NCPU = os.cpu_count() or 8
 
 ALLOWED_AXIOMS = set()   # the development is axiom-free; anything printed is a failure
@@ -228,8 +229,11 @@ def eval_mismatches(workdir, preamble, ok_def, case_texts, chunk=400, tag="cases
         if names:
             part = [lit.sub(lambda m: names.get(m.group(1), m.group(0)), t) for t in part]
         body = ";\n  ".join(part)
+        # the element type is taken from `ok` so that a chunk in which some component is always None / [] still type-checks
+        mt = re.search(r"Definition ok \(c : (.+?)\) : bool", ok_def, re.S)
+        ann = f" : list ({mt.group(1)})" if mt else ""
         files[f"{tag}_{k // chunk}.v"] = (
-            PACK_PRE + preamble + "\n" + ok_def + "\n" + defs + "\nDefinition cases := [\n  " + body + "\n].\n"
+            PACK_PRE + preamble + "\n" + ok_def + "\n" + defs + f"\nDefinition cases{ann} := [\n  " + body + "\n].\n"
             "Eval vm_compute in (mismatches ok cases).\n")
     res = run_coq_files(workdir, files)
     mism, errs = [], []
